@@ -708,6 +708,7 @@ func (ff *fsFile) bigFileReader() (io.Reader, error) {
 	if n > 0 {
 		r = ff.bigFiles[n-1]
 		ff.bigFiles = ff.bigFiles[:n-1]
+		vhook("fs.rd.pool", ff, r, 0, 0)
 	}
 	ff.bigFilesLock.Unlock()
 
@@ -715,6 +716,7 @@ func (ff *fsFile) bigFileReader() (io.Reader, error) {
 		return r, nil
 	}
 
+	vhook("fs.open", ff.h, ff.filename, 0, 0)
 	f, err := ff.h.filesystem.Open(ff.filename)
 	if err != nil {
 		return nil, fmt.Errorf("cannot open already opened file: %w", err)
@@ -727,6 +729,7 @@ func (ff *fsFile) bigFileReader() (io.Reader, error) {
 }
 
 func (ff *fsFile) Release() {
+	vhook("fs.release", ff, nil, 0, 0)
 	if ff.f != nil {
 		_ = ff.f.Close()
 
@@ -794,6 +797,7 @@ func (r *bigFileReader) Close() error {
 			ff := r.ff
 			ff.bigFilesLock.Lock()
 			ff.bigFiles = append(ff.bigFiles, r)
+			vhook("fs.rd.put", ff, r, 0, 0)
 			ff.bigFilesLock.Unlock()
 		} else {
 			_ = r.f.Close()
@@ -942,6 +946,7 @@ func newCacheManager(fs *FS) cacheManager {
 		cleanStop:     make(chan struct{}),
 	}
 
+	vhook("fs.new", instance, fs, 0, 0)
 	go instance.handleCleanCache(fs.CleanStop)
 
 	return instance
@@ -973,6 +978,7 @@ func (n *noopCacheManager) DecReadersCount(ff *fsFile) {
 	if ff.readersCount == 0 {
 		release = true
 	}
+	vhook("fs.dec", n, ff, ff.readersCount, 0)
 	n.cacheLock.Unlock()
 
 	if release {
@@ -981,12 +987,14 @@ func (n *noopCacheManager) DecReadersCount(ff *fsFile) {
 }
 
 func (*noopCacheManager) GetFileFromCache(cacheKind CacheKind, path []byte) (*fsFile, bool) {
+	vhook("fs.get", nil, nil, int(cacheKind), 0)
 	return nil, false
 }
 
 func (n *noopCacheManager) SetFileToCache(cacheKind CacheKind, path []byte, ff *fsFile) *fsFile {
 	n.cacheLock.Lock()
 	ff.readersCount++
+	vhook("fs.set.closed", ff, nil, int(cacheKind), 0)
 	n.cacheLock.Unlock()
 	return ff
 }
@@ -1032,6 +1040,7 @@ func (cm *inMemoryCacheManager) close() []*fsFile {
 	cm.cacheLock.Lock()
 	cm.closed = true
 	filesToRelease := cm.collectAllFilesToReleaseNolock(nil)
+	vhook("fs.close", cm, nil, len(filesToRelease), len(cm.pendingFiles))
 	cm.cacheLock.Unlock()
 
 	return filesToRelease
@@ -1050,6 +1059,7 @@ func (cm *inMemoryCacheManager) DecReadersCount(ff *fsFile) {
 		release = true
 		cm.removePendingFileNolock(ff)
 	}
+	vhook("fs.dec", cm, ff, ff.readersCount, 0)
 	cm.cacheLock.Unlock()
 
 	if release {
@@ -1082,6 +1092,7 @@ func (cm *inMemoryCacheManager) GetFileFromCache(cacheKind CacheKind, path []byt
 	if ok {
 		ff.readersCount++
 	}
+	vhook("fs.get", cm, ff, int(cacheKind), 0)
 	cm.cacheLock.Unlock()
 
 	return ff, ok
@@ -1091,6 +1102,7 @@ func (cm *inMemoryCacheManager) SetFileToCache(cacheKind CacheKind, path []byte,
 	cm.cacheLock.Lock()
 	if cm.closed {
 		ff.readersCount++
+		vhook("fs.set.closed", ff, nil, int(cacheKind), 0)
 		cm.cacheLock.Unlock()
 		return ff
 	}
@@ -1100,8 +1112,10 @@ func (cm *inMemoryCacheManager) SetFileToCache(cacheKind CacheKind, path []byte,
 	if !ok {
 		fileCache[string(path)] = ff
 		ff.readersCount++
+		vhook("fs.set.new", ff, nil, int(cacheKind), 0)
 	} else {
 		ff1.readersCount++
+		vhook("fs.set.dup", ff, ff1, int(cacheKind), 0)
 	}
 	cm.cacheLock.Unlock()
 
@@ -1172,6 +1186,7 @@ func (cm *inMemoryCacheManager) cleanCache() []*fsFile {
 	filesToRelease = cm.cleanCacheNolock(cm.cacheGzip, filesToRelease)
 	filesToRelease = cm.cleanCacheNolock(cm.cacheZstd, filesToRelease)
 
+	vhook("fs.clean", cm, nil, len(filesToRelease), len(cm.pendingFiles))
 	cm.cacheLock.Unlock()
 
 	return filesToRelease
@@ -1181,6 +1196,7 @@ func (cm *inMemoryCacheManager) cleanCacheNolock(cache map[string]*fsFile, files
 	t := time.Now()
 	for k, ff := range cache {
 		if t.Sub(ff.t) > cm.cacheDuration {
+			vhook("fs.evict", cm, ff, ff.readersCount, 0)
 			filesToRelease = cm.addFileToReleaseNolock(filesToRelease, ff)
 			delete(cache, k)
 		}
@@ -1593,6 +1609,7 @@ func (h *fsHandler) createDirIndex(ctx *RequestCtx, dirPath string, mustCompress
 		_, _ = fmt.Fprintf(w, `<li><a href="%s" class="dir">..</a></li>`, parentPathEscaped)
 	}
 
+	vhook("fs.open", h, dirPath, 0, 0)
 	dirEntries, err := fs.ReadDir(h.filesystem, dirPath)
 	if err != nil {
 		return nil, err
@@ -1676,6 +1693,7 @@ const (
 )
 
 func (h *fsHandler) compressAndOpenFSFile(filePath, fileEncoding string) (*fsFile, error) {
+	vhook("fs.open", h, filePath, 0, 0)
 	f, err := h.filesystem.Open(filePath)
 	if err != nil {
 		return nil, err
@@ -1699,6 +1717,7 @@ func (h *fsHandler) compressAndOpenFSFile(filePath, fileEncoding string) (*fsFil
 	}
 
 	compressedFilePath := h.filePathToCompressed(filePath)
+	vhook("fs.create", h, compressedFilePath, 0, 0)
 
 	if _, ok := h.filesystem.(*osFS); !ok {
 		return h.newCompressedFSFileCache(f, fileInfo, compressedFilePath, fileEncoding)
@@ -1734,6 +1753,7 @@ func (h *fsHandler) compressFileNolock(
 	// goroutine.
 	// It is safe opening such a file, since the file creation
 	// is guarded by file mutex - see getFileLock call.
+	vhook("fs.create", h, compressedFilePath, 0, 0)
 	if _, err := os.Stat(compressedFilePath); err == nil {
 		_ = f.Close()
 		return h.newCompressedFSFile(compressedFilePath, fileEncoding)
@@ -1868,6 +1888,7 @@ func (h *fsHandler) newCompressedFSFileCache(f fs.File, fileInfo fs.FileInfo, fi
 }
 
 func (h *fsHandler) newCompressedFSFile(filePath, fileEncoding string) (*fsFile, error) {
+	vhook("fs.open", h, filePath, 0, 0)
 	f, err := h.filesystem.Open(filePath)
 	if err != nil {
 		return nil, fmt.Errorf("cannot open compressed file %q: %w", filePath, err)
@@ -1890,6 +1911,7 @@ func (h *fsHandler) openFSFile(filePath string, mustCompress bool, fileEncoding 
 	if mustCompress {
 		filePath += h.compressedFileSuffixes[fileEncoding]
 	}
+	vhook("fs.open", h, filePath, 0, 0)
 	f, err := h.filesystem.Open(filePath)
 	if err != nil {
 		if mustCompress && errors.Is(err, fs.ErrNotExist) {
@@ -1920,6 +1942,7 @@ func (h *fsHandler) openFSFile(filePath string, mustCompress bool, fileEncoding 
 	}
 
 	if mustCompress {
+		vhook("fs.open", h, filePathOriginal, 0, 0)
 		fileInfoOriginal, err := fs.Stat(h.filesystem, filePathOriginal)
 		if err != nil {
 			_ = f.Close()
@@ -1932,6 +1955,7 @@ func (h *fsHandler) openFSFile(filePath string, mustCompress bool, fileEncoding 
 		if fileInfoOriginal.ModTime().Sub(fileInfo.ModTime()) >= time.Second {
 			// The compressed file became stale. Re-create it.
 			_ = f.Close()
+			vhook("fs.create", h, filePath, 0, 0)
 			_ = os.Remove(filePath)
 			return h.compressAndOpenFSFile(filePathOriginal, fileEncoding)
 		}
